@@ -9,7 +9,9 @@ import (
 	"go/format"
 	"go/parser"
 	"go/printer"
+	"go/scanner"
 	"go/token"
+	"math/rand"
 	"reflect"
 	"sort"
 
@@ -128,7 +130,8 @@ func dstDump(f *dst.File) string {
 }
 
 type c17Input struct {
-	Side   string   `json:"side"` // decorate | restore
+	Side   string   `json:"side"`            // decorate | restore | parse
+	Entry  string   `json:"entry,omitempty"` // parse: ParseFile | Parse
 	Src    string   `json:"src,omitempty"`
 	Config icConfig `json:"config,omitempty"`
 	FailAt int      `json:"fail_at"`
@@ -179,8 +182,108 @@ func printManaged(f *dst.File) (string, error, string) {
 	return out, err, pm
 }
 
+// c17ParseOnce: the source goes through Decorator.ParseFile / Decorator.Parse (the library parses
+// and decorates in one call) with the goast resolver wrapped to fail at call failAt (0: never).
+func c17ParseOnce(entry, src string, failAt int) (f *dst.File, dump string, err error, pm string, calls int) {
+	res := &failingIdentResolver{inner: goastNew(), failAt: failAt}
+	dec := decorator.NewDecoratorWithImports(token.NewFileSet(), "example.com/self", res)
+	pm = safely(func() {
+		if entry == "Parse" {
+			f, err = dec.Parse(src)
+		} else {
+			f, err = dec.ParseFile("a.go", src, parser.ParseComments)
+		}
+	})
+	calls = res.calls
+	if pm == "" && f != nil {
+		dump = dstDump(f)
+	}
+	return
+}
+
+// c17ParserVerdict: what go/parser says about the source on its own: does it return a positioned
+// tree (the one the library goes on to decorate), and does it report syntax errors
+func c17ParserVerdict(src string) (tree bool, syntaxErr bool) {
+	af, perr := parser.ParseFile(token.NewFileSet(), "a.go", src, parser.ParseComments)
+	return af != nil && af.Pos().IsValid(), perr != nil
+}
+
+// c17BrokenVariants: sources that go/parser rejects but still returns a tree for, made from src by
+// one token-level damage (a token dropped, doubled, or replaced by a closing delimiter / an
+// operator) at a position after the package clause chosen by rng
+func c17BrokenVariants(rng *rand.Rand, src string, n int) []string {
+	fset := token.NewFileSet()
+	file := fset.AddFile("", fset.Base(), len(src))
+	var s scanner.Scanner
+	s.Init(file, []byte(src), nil, scanner.ScanComments)
+	type span struct{ lo, hi int }
+	var toks []span
+	for {
+		pos, tok, lit := s.Scan()
+		if tok == token.EOF {
+			break
+		}
+		if tok == token.SEMICOLON && lit == "\n" {
+			continue
+		}
+		l := len(lit)
+		if l == 0 {
+			l = len(tok.String())
+		}
+		o := file.Offset(pos)
+		toks = append(toks, span{o, o + l})
+	}
+	var out []string
+	seen := map[string]bool{}
+	for tries := 0; len(out) < n && tries < 40*n && len(toks) > 3; tries++ {
+		t := toks[2+rng.Intn(len(toks)-2)] // not the package clause
+		var v string
+		switch rng.Intn(4) {
+		case 0:
+			v = src[:t.lo] + src[t.hi:]
+		case 1:
+			v = src[:t.hi] + " " + src[t.lo:t.hi] + src[t.hi:]
+		case 2:
+			v = src[:t.lo] + []string{")", "}", "]"}[rng.Intn(3)] + src[t.hi:]
+		default:
+			v = src[:t.lo] + []string{"+", "=", ":=", ".", ","}[rng.Intn(5)] + src[t.hi:]
+		}
+		if seen[v] {
+			continue
+		}
+		seen[v] = true
+		if tree, bad := c17ParserVerdict(v); tree && bad {
+			out = append(out, v)
+		}
+	}
+	return out
+}
+
 func c17Check(in c17Input) (key, what string) {
 	switch in.Side {
+	case "parse":
+		// whatever the parser said about the source: a resolver failure during the decoration of the
+		// tree it returned comes back as an error wrapping the resolver's, and no file
+		f, _, err, pm, _ := c17ParseOnce(in.Entry, in.Src, in.FailAt)
+		_, syntaxErr := c17ParserVerdict(in.Src)
+		about := fmt.Sprintf("Decorator.%s on a source go/parser %s, resolver failing at call %d", in.Entry, map[bool]string{true: "reports syntax errors for (and returns a tree for)", false: "accepts"}[syntaxErr], in.FailAt)
+		if pm != "" {
+			return "c17-parse-panic", about + ": panicked: " + pm
+		}
+		if err == nil {
+			return "c17-parse-swallowed", about + ": no error returned"
+		}
+		if !errors.Is(err, errInjected) {
+			return "c17-parse-not-wrapped", about + fmt.Sprintf(": the returned error does not wrap the resolver's error: %v", err)
+		}
+		if f != nil {
+			return "c17-parse-output", about + ": a file was returned together with the resolver's error"
+		}
+		_, dump1, _, pm1, _ := c17ParseOnce(in.Entry, in.Src, 0)
+		_, dump2, _, pm2, _ := c17ParseOnce(in.Entry, in.Src, 0)
+		if pm1 != pm2 || dump1 != dump2 {
+			return "c17-parse-retry", about + ": two failure-free runs with fresh decorators give different trees"
+		}
 	case "decorate":
 		dump, out, err, pm, same, _ := c17DecorateOnce(in.Src, in.FailAt)
 		if pm != "" {
@@ -281,8 +384,21 @@ var c17Sources = []string{
 	"package main\n\nimport (\n\t\"io\"\n\tstr \"strings\"\n)\n\ntype T struct{ r io.Reader }\n\nfunc (t T) f(a io.Writer) (io.Reader, error) {\n\treturn str.NewReader(\"\"), io.EOF\n}\n",
 }
 
+// sources with a syntax error after a valid package clause: go/parser returns a positioned tree
+// and an error list for each (checked at run time by c17ParserVerdict)
+var c17SyntaxErrorSources = []string{
+	// a missing operand
+	"package main\n\nimport (\n\t\"fmt\"\n\t\"os\"\n)\n\nfunc main() {\n\tfmt.Println(os.Args)\n\tx := 1 +\n\t_ = x\n}\n",
+	// a missing closing parenthesis in a call
+	"package main\n\nimport \"fmt\"\n\nfunc main() {\n\tfmt.Println(fmt.Sprint(1)\n}\n\nfunc g() string { return fmt.Sprint(2) }\n",
+	// a stray token between declarations, qualified types in a signature
+	"package main\n\nimport (\n\t\"io\"\n\tstr \"strings\"\n)\n\n+\n\nfunc f(a io.Writer) (io.Reader, error) {\n\treturn str.NewReader(\"\"), io.EOF\n}\n",
+	// a statement cut short inside a block, a dot import
+	"package main\n\nimport (\n\t. \"fmt\"\n\t\"os\"\n)\n\nfunc main() {\n\tif os.Args {\n\t\tPrintln(os.Args[0]\n\t}\n\tvar = 1\n\tPrintln(os.Stdout)\n}\n",
+}
+
 func c17Prop(c *Ctx) {
-	c.Res.Rule = "decorate: sources with qualified identifiers, the goast resolver wrapped to fail once at call k for EVERY k of the failure-free call sequence; restore: import configurations with at least one resolver call, the package resolver failing once at call k for every k; non-trivial = distinct (input, k)"
+	c.Res.Rule = "decorate: sources with qualified identifiers, the goast resolver wrapped to fail once at call k for EVERY k of the failure-free call sequence; restore: import configurations with at least one resolver call, the package resolver failing once at call k for every k; parse: Decorator.ParseFile / Parse on the decorate sources, on hand-written sources with a syntax error and on token-damaged variants that go/parser reports errors for but returns a tree for, the resolver failing at every call k (error wraps the injected one, no file); non-trivial = distinct (input, k)"
 	for _, src := range c17Sources {
 		_, _, _, _, _, calls := c17DecorateOnce(src, 0)
 		for k := 1; k <= calls; k++ {
@@ -292,6 +408,39 @@ func c17Prop(c *Ctx) {
 			c.Res.hist("c17", "decorate")
 			if key, what := c17Check(in); key != "" {
 				c.Res.fail(key, what, in)
+			}
+		}
+	}
+	// the same through Decorator.ParseFile / Decorator.Parse: the sources above, and damaged
+	// variants of them that go/parser reports syntax errors for while still returning a tree (the
+	// library decorates that tree and returns it with the parser's error)
+	psrcs := append([]string{}, c17Sources...)
+	psrcs = append(psrcs, c17SyntaxErrorSources...)
+	prng := rand.New(rand.NewSource(c.Seed*7919 + 17)) // own stream: the configurations below stay as they were
+	for _, src := range c17Sources {
+		psrcs = append(psrcs, c17BrokenVariants(prng, src, c.N(6))...)
+	}
+	for si, src := range psrcs {
+		tree, syntaxErr := c17ParserVerdict(src)
+		if !tree {
+			continue
+		}
+		for _, entry := range []string{"ParseFile", "Parse"} {
+			f, _, _, pm, calls := c17ParseOnce(entry, src, 0)
+			if pm != "" || f == nil {
+				// the failure-free run gives no tree (the working resolver itself rejects the damaged
+				// source, or decoration of the damaged tree panics): not a resolver-failure scenario
+				c.Res.hist("c17", "parse: failure-free run without a file")
+				continue
+			}
+			for k := 1; k <= calls; k++ {
+				in := c17Input{Side: "parse", Entry: entry, Src: src, FailAt: k}
+				c.Res.Evaluations++
+				c.Res.seen(fmt.Sprint("p", entry, si, len(src), k))
+				c.Res.hist("c17", fmt.Sprintf("parse syntax-error=%v", syntaxErr))
+				if key, what := c17Check(in); key != "" {
+					c.Res.fail(key, what, in)
+				}
 			}
 		}
 	}
